@@ -45,10 +45,12 @@ class Built:
 
     def __init__(self, prog: list[dict], dtype=torch.float64, rng: random.Random | None = None,
                  shapes: list | None = None, scalars: tuple | list = (), real: list | None = None,
-                 other_dtype_leaves: tuple | list = (), perturb: float = 0.0, layouts: list | None = None):
+                 other_dtype_leaves: tuple | list = (), perturb: float = 0.0, layouts: list | None = None,
+                 nonscalars: tuple | list = ()):
         """``perturb``: added (times 1, 2, 3, ...) to the leaf values - with 2**-29 the values need more than 24
         mantissa bits, so any internal round trip through float32 becomes visible at float64 accuracy."""
-        """``scalars``: node ids (1-based) that must be 0-d tensors (losses of mtl_backward)."""
+        """``scalars``: node ids (1-based) that must be 0-d tensors (losses of mtl_backward);
+        ``nonscalars``: node ids that must NOT be 0-d (a one-element tensor of shape (1,) or (1, 1) is not a scalar)."""
         rng = rng or random.Random(0)
         scalars = set(scalars)
         self.prog = prog
@@ -82,6 +84,8 @@ class Built:
                 self.real.append(how)
             y = self._apply(nd, a, None if "b" not in nd else self.t[nd["b"] - 1], how)
             shape = tuple(shapes[idx]) if shapes else (() if (idx + 1) in scalars else pick_shape(y.numel(), rng))
+            if not shapes and (idx + 1) in set(nonscalars) and shape == ():
+                shape = rng.choice([(1,), (1, 1)])
             self.t.append(y.reshape(shape))
             self.shapes.append(shape)
             self.layouts.append(0)
